@@ -3,6 +3,7 @@ package main
 import (
 	"encoding/json"
 	"fmt"
+	"strings"
 	"time"
 
 	"github.com/Trendyol/go-dcp/helpers"
@@ -242,4 +243,60 @@ func registerMain(p RegisterParams) {
 		n.sd.StopHeartbeat()
 	}
 	vrt.SetOutcome(fmt.Sprintf("%v|%v", hist, lastOf(leader.events)))
+}
+
+// c13_sdstop: the service-discovery part of the shutdown (dcp.close(): StopMonitor, StopHeartbeat) while a peer
+// has stopped answering without closing its connections - a ping or a numbering call to it never returns
+// (net/rpc calls have no deadline). The shutdown does not wait for such a call: it returns in bounded time
+// whenever it arrives, also while the heart-beat round is parked inside the call.
+func init() {
+	scenarios["c13_sdstop"] = func(raw json.RawMessage) *vrt.Scenario {
+		return &vrt.Scenario{Name: "c13_sdstop", FreeChoices: true, MaxSteps: 2_000_000, NoTimerAlt: true, Classify: sdClassify, Main: func() {
+			resetGlobals()
+			vrpc.Reset()
+			o := EnvOpts{RebalanceDelay: time.Second}
+			o.defaults()
+			addr := func(id *models.Identity) string { return fmt.Sprintf("%s:%d", id.IP, sdPort) }
+			boot := func(name, ip string, join int64) *rpcNode {
+				n := &rpcNode{id: &models.Identity{IP: ip, Name: name, ClusterJoinTime: join}, alive: true}
+				bus := EventBus.New()
+				cfg := o.config()
+				cfg.LeaderElection.RPC.Port = sdPort
+				n.sd = servicediscovery.NewServiceDiscovery(cfg, bus)
+				n.le = stream.VerifLeaderHandler(cfg, n.sd, bus, n.id)
+				vrpc.Serve(addr(n.id), servicediscovery.VerifNewHandler(sdPort, n.id, n.sd))
+				n.sd.StartHeartbeat()
+				n.sd.StartMonitor()
+				return n
+			}
+			leader := boot("L", "10.0.0.1", 1)
+			leader.le.OnBecomeLeader()
+			f := boot("F0", "10.0.0.2", 100)
+			f.le.OnBecomeFollower(leader.id)
+			vrt.Sleep(12 * time.Second)
+			who := vrt.Choose(2, true, "who-shuts-down") // 0: the leader while the follower hangs, 1: the follower while the leader hangs
+			closing, hung := leader, f
+			if who == 1 {
+				closing, hung = f, leader
+			}
+			k := vrt.Choose(8, true, "seconds-after-the-peer-stopped-answering")
+			vrpc.Hang(addr(hung.id), true)
+			vrt.Sleep(time.Duration(k) * time.Second)
+			returned := false
+			vrt.GoNamed("shutdown", func() {
+				// (the order of dcp.close())
+				closing.sd.StopMonitor()
+				closing.sd.StopHeartbeat()
+				returned = true
+			})
+			vrt.Sleep(10 * time.Minute)
+			desc := fmt.Sprintf("%s shuts down %d s after %s stopped answering (connections up)", closing.id.Name, k, hung.id.Name)
+			if !returned {
+				vrt.Failf("%s: the service-discovery part of Close() has not returned after 10 virtual minutes; blocked: %s", desc, strings.Join(vrt.BlockedThreads(), " | "))
+			}
+			hung.sd.StopMonitor()
+			hung.sd.StopHeartbeat()
+			vrt.SetOutcome(desc)
+		}}
+	}
 }
